@@ -191,6 +191,30 @@ def c16_tasks():
                     ctx.solver.pop()
                 ctx.oblige(f"C16.{name}.{add}.old_items_kept", Implies(rng(0, k, n0), eq(e.key[-1], k) if hasattr(e, "key") and e.key[0] == lst.key[0] else False), kind="C16")
         out.append(Task(f"C16.{name}.{add}", SPECS[name].cls + "." + add, ["C16"], t_add, kind="obj"))
+    def t_add_incoherent(interp):
+        """a force/torque track whose arrays no longer have one common length (public attributes were reassigned): whatever
+        add_track decides, a track it accepts counts -- by its own nFrames -- as many frames as the block"""
+        ctx = interp.ctx
+        name, (add, fld, item, nattr) = "ForceTorque3D", ADD["ForceTorque3D"]
+        sp, o = _setup(interp, name, SPECS[name].variants[0])
+        nt, nt2 = z3.Const("new_track_frames", I), z3.Const("other_arrays_frames", I)
+        ctx.assume(And(nt >= 0, nt2 >= 0))
+        x = _dyn_item(interp, item, "newitem", (), nt, True)
+        for c in ("application_point", "force", "torque"):
+            probe = z3.Const(f"regrown_{c}", B)
+            src = x.fields[c]
+            x.fields[c] = VNd((If(probe, nt2, nt),) + tuple(src.shape[1:]), src.dt, src.get, label=src.label)
+        f = _method(interp, name, add)
+        interp.inline_only.add(f.qualname)
+        n_block = o.fields[nattr]
+        oc = _outcome(interp, lambda: interp.call(f, [o, x], {}))
+        if oc[0] != "raise":
+            counted = _outcome(interp, lambda: interp.getattr(x, "nFrames"))
+            if counted[0] == "raise":
+                ctx.oblige("C16.ForceTorque3D.add_track[incoherent].track_frame_count_defined", False, kind="C16")
+            else:
+                ctx.oblige("C16.ForceTorque3D.add_track[incoherent].accepted_track_counts_the_block_length", eq(npmodel.as_int(interp, counted[1]), n_block), kind="C16")
+    out.append(Task("C16.ForceTorque3D.add_track[incoherent]", SPECS["ForceTorque3D"].cls + ".add_track", ["C16"], t_add_incoherent, kind="obj"))
     for name in ("Data3D", "ForceTorque3D"):
         add, fld, item, nattr = ADD[name]
 
@@ -704,6 +728,7 @@ def c15_tasks():
 
 # ================================================================================================ C14
 EQ_BLOCKS = ["EMG", "Events", "PlatformsData", "PlatformsCalibration", "Calibration", "Data3D", "ForceTorque3D", "OpticalSetup"]
+EQ_TABLES = ["Data2D"]          # blocks whose content is a table of optional cells, not a list of items
 EQ_ITEMS = ["EMGTrack", "Event", "PlatformData", "PlatformInfo", "SeelabCamera", "BTSCamera", "Viewport", "OpticalChannel"]
 LIST_FIELDS = {"EMG": ("_signals", "_emgMap"), "Events": ("events", None), "PlatformsData": ("_platforms", "_plat_map"),
                "PlatformsCalibration": ("_platforms", "_platformMap"), "Calibration": ("cam_data", "cameras_calibration_map"),
@@ -750,7 +775,7 @@ def _eval_eq(interp, tag, x, y):
 
 def c14_tasks():
     out = []
-    for name in EQ_BLOCKS + EQ_ITEMS:
+    for name in EQ_BLOCKS + EQ_TABLES + EQ_ITEMS:
         for variant in SPECS[name].variants:
             if (name == "Data3D" and variant == "byTrack-nolinks-attr") or (name == "BTSCamera" and variant == "short"):
                 continue
@@ -869,6 +894,7 @@ def c14_tasks():
             respects = ["count-1"] + (["channel"] if mp else []) + (["label"] if name in LABEL_FIELD else []) + (["sample"] if name in SAMPLE_FIELD else []) + ["scalar:" + f for f in SCALAR_FIELDS[name]]
             for r in respects:
                 out.append(Task(f"C14.{name}{vt}.differs[{r}]", SPECS[name].cls + ".__eq__", ["C14"], mk(r), kind="obj"))
+    out.extend(_c14_data2d())
     # items: one stored word / character / count changed
     for name in EQ_ITEMS:
         variant = "full" if name == "BTSCamera" else SPECS[name].variants[0]
@@ -922,6 +948,102 @@ def c14_tasks():
     return out
 
 
+def _c14_data2d():
+    """Data2D blocks that differ in one header scalar, one camera channel, one more frame / camera, one cell present
+    on one side only, one cell with one more point, or one coordinate, compare unequal (both ways round)"""
+    from .loops import MixedElem
+    from .symlayout import opt_parts
+    name = "Data2D"
+
+    def mk(respect):
+        def run(interp):
+            ctx = interp.ctx
+            from .eqmodel import close, close_axioms
+            close_axioms(ctx)
+            sp, a, b, f = _eq_setup(interp, name, None)
+            if f is None:
+                ctx.oblige("C14.Data2D.has_value_equality", False, kind="C14")
+                return
+            pck = b.fields["_data"]
+            d0 = pck.fields["data"]
+            nF, nC = d0.shape
+
+            def with_data(nd):
+                p2 = VObj(pck.cls, pck.epoch, pck.label)
+                p2.__dict__.update({k: v for k, v in pck.__dict__.items() if k != "fields"})
+                p2.fields = dict(pck.fields)
+                p2.fields["data"] = nd
+                b.fields["_data"] = p2
+            if respect.startswith("scalar:"):
+                fld = respect.split(":")[1]
+                old = b.fields[fld]
+                if isinstance(old, VFloat):
+                    w2 = z3.Const("other_" + fld, I)
+                    ctx.assume(And(Not(npmodel.isnan(w2)), Not(close(w2, old.w)), w2 != old.w))
+                    b.fields[fld] = VFloat(w2, old.kind)
+                elif isinstance(old, VEnum):
+                    other = z3.Const("other_" + fld, I)
+                    ctx.assume(And(other != old.val, Or(*[other == m.val for m in old.cls.members.values()])))
+                    b.fields[fld] = VEnum(old.cls, other)
+                else:
+                    other = z3.Const("other_" + fld, I)
+                    ctx.assume(other != old)
+                    b.fields[fld] = other
+            elif respect == "channel":
+                j0 = z3.Const("changed_pos", I)
+                ctx.assume(rng(0, j0, nC))
+                m0 = b.fields["_camMap"]
+                other = z3.Const("other_channel", I)
+                ctx.assume(And(other != m0.get(j0), other >= 0, other < 2**15))
+                b.fields["_camMap"] = VNd(m0.shape, m0.dt, lambda k, m0=m0: If(zint(k) == j0, other, m0.get(k)))
+            elif respect in ("frames+1", "cams+1"):
+                if respect == "frames+1":
+                    b.fields["nFrames"] = nF + 1
+                    with_data(VNd((nF + 1, nC), d0.dt, lambda i, j: MixedElem(And(zint(i) < zint(nF), opt_parts(d0.get(i, j))[0]), opt_parts(d0.get(i, j))[1], None)))
+                else:
+                    m0 = b.fields["_camMap"]
+                    b.fields["nCams"] = nC + 1
+                    b.fields["_camMap"] = VNd((nC + 1,), m0.dt, lambda k, m0=m0: If(zint(k) == zint(nC), 77, m0.get(k)))
+                    with_data(VNd((nF, nC + 1), d0.dt, lambda i, j: MixedElem(And(zint(j) < zint(nC), opt_parts(d0.get(i, j))[0]), opt_parts(d0.get(i, j))[1], None)))
+            elif respect in ("cell_emptied", "cell_one_point_fewer", "coordinate"):
+                i0, j0 = z3.Const("changed_frame", I), z3.Const("changed_cam", I)
+                ctx.assume(And(rng(0, i0, nF), rng(0, j0, nC)))
+                p0, x0 = opt_parts(d0.get(i0, j0))
+                ctx.assume(p0)
+                here = lambda i, j: And(eq(zint(i), i0), eq(zint(j), j0))
+                if respect == "cell_emptied":
+                    with_data(VNd((nF, nC), d0.dt, lambda i, j: MixedElem(And(Not(here(i, j)), opt_parts(d0.get(i, j))[0]), opt_parts(d0.get(i, j))[1], None)))
+                elif respect == "cell_one_point_fewer":
+                    ctx.assume(zint(x0.shape[0]) >= 2)
+
+                    def cell(i, j):
+                        p, x = opt_parts(d0.get(i, j))
+                        return MixedElem(p, VNd((If(here(i, j), zint(x.shape[0]) - 1, zint(x.shape[0])), 2), x.dt, x.get), None)
+                    with_data(VNd((nF, nC), d0.dt, cell))
+                else:
+                    q0, c0 = z3.Const("changed_point", I), z3.Const("changed_axis", I)
+                    ctx.assume(And(rng(0, q0, x0.shape[0]), rng(0, c0, 2)))
+                    w2 = z3.Const("other_word", I)
+                    oldw = x0.get(q0, c0)
+                    ctx.assume(And(Not(npmodel.isnan(w2)), Not(npmodel.isnan(oldw)), Not(close(w2, oldw)), w2 != oldw))
+
+                    def cell(i, j):
+                        p, x = opt_parts(d0.get(i, j))
+                        return MixedElem(p, VNd(x.shape, x.dt, lambda q, c, x=x, i=i, j=j: If(And(here(i, j), eq(zint(q), q0), eq(zint(c), c0)), w2, x.get(q, c))), None)
+                    with_data(VNd((nF, nC), d0.dt, cell))
+            else:
+                raise OutOfReach(respect)
+            for desc, x, y in (("a==b", a, b), ("b==a", b, a)):
+                r = _eval_eq(interp, f"C14.Data2D.differs[{respect}].{desc}", x, y)
+                if r is not None:
+                    ctx.oblige(f"C14.Data2D.differs[{respect}].{desc}_is_false", Not(r), kind="C14")
+        return run
+    out = []
+    for r in ("scalar:frequency", "scalar:startTime", "scalar:flags", "channel", "frames+1", "cams+1", "cell_emptied", "cell_one_point_fewer", "coordinate"):
+        out.append(Task(f"C14.Data2D.differs[{r}]", SPECS[name].cls + ".__eq__", ["C14"], mk(r), kind="obj"))
+    return out
+
+
 LABEL_FIELD = {"EMG": "label", "Events": "label", "PlatformsCalibration": "label"}
 SAMPLE_FIELD = {"EMG": "data", "Events": "values", "PlatformsData": "force", "PlatformsCalibration": "position", "Calibration": "translation_vector"}
 ITEM_LAYOUT = {("EMG", None): "EMGTrack", ("Events", None): "Event", ("PlatformsData", None): "PlatformData", ("PlatformsCalibration", None): "PlatformInfo",
@@ -947,10 +1069,17 @@ def property_config(tasks, select):
     P = {}
     P["C18"] = dict(decisive=select(tasks, ("C18.",)), chain=[], harness=dict(extra=[("harness.obj_checks", "run_c18")]))
     P["C16"] = dict(decisive=select(tasks, ("C16.",)), chain=[], harness=dict(extra=[("harness.obj_checks", "run_c16")]))
-    P["C20"] = dict(decisive=select(tasks, ("C20.", "C16.Data3D.assign", "C16.ForceTorque3D.assign")), chain=[], harness=dict(extra=[("harness.obj_checks", "run_c20")]))
+    P["C20"] = dict(decisive=select(tasks, ("C20.", "C16.Data3D.assign", "C16.ForceTorque3D.assign")),
+                    chain=select(tasks, ("B.MarkerTrack", "B.EMGTrack", "B.Event", "B.ForceTorqueTrack", "B.PlatformInfo", "B.PlatformData", "B.OpticalChannel", "TDF.", "C16.Data3D.add_track",
+                                         "C16.ForceTorque3D.add_track", "C16.EMG.addSignal", "C15.EMG.add[", "C15.PlatformsCalibration.add[", "C15.PlatformsData.add[")),
+                    harness=dict(extra=[("harness.obj_checks", "run_c20")]))
     P["C19"] = dict(decisive=select(tasks, ("C19.",)), chain=[], harness=dict(extra=[("harness.obj_checks", "run_c19")]))
-    P["C14"] = dict(decisive=select(tasks, ("C14.",)), chain=select(tasks, ("W.Data3D", "W.ForceTorque3D", "W.OpticalSetup", "RT.Data3D", "RT.ForceTorque3D", "RT.OpticalSetup")),
+    P["C14"] = dict(decisive=select(tasks, ("C14.",)), chain=select(tasks, ("W.Data3D", "W.ForceTorque3D", "W.OpticalSetup", "RT.Data3D", "RT.ForceTorque3D", "RT.OpticalSetup", "SW.Data2DPCK")),
                     harness=dict(extra=[("harness.obj_checks2", "run_c14")]))
-    P["C15"] = dict(decisive=select(tasks, ("C15.", "B.EMG", "B.PlatformsData", "B.PlatformsCalibration", "W.EMG", "W.PlatformsData", "W.PlatformsCalibration")), chain=[],
+    # the block codecs of the three channel-mapped blocks call their items, the primitive codecs and _segments through
+    # contracts: the tasks proving those belong to the check (chain closed)
+    callees = select(tasks, ("RT.EMGTrack", "RT.PlatformData", "RT.PlatformInfo", "W.EMGTrack", "W.PlatformData", "W.PlatformInfo", "B.EMGTrack", "B.PlatformData", "B.PlatformInfo",
+                             "SEG.EMGTrack", "SEG.PlatformData", "TDF.", "C13.BTSString."))
+    P["C15"] = dict(decisive=select(tasks, ("C15.", "B.EMG", "B.PlatformsData", "B.PlatformsCalibration", "W.EMG", "W.PlatformsData", "W.PlatformsCalibration")) + callees, chain=[],
                     harness=dict(extra=[("harness.obj_checks2", "run_c15")]))
     return P
